@@ -203,6 +203,11 @@ def check(case):
             # batches with RenameModel/DeleteModel next to other mutations are known to
             # diverge from the one-at-a-time run (F-C03-4, reported by the C03 check)
             out['labels'].append('batch_skipped(F-C03-4)')
+        elif any('multi_initial' in fl for fl in flags.values()):
+            # two initial values in one batch are bound in the wrong order (F-C03-2): a
+            # foreign-key column can receive the other field's value; C03's subject
+            out['labels'].append('batch_skipped(F-C03-2)')
+            model_level = True
         if not atoms and len(seq) > 1 and not res['rejected'] and not model_level:
             resb = EC.run_case(case, want_rows=True, batch=True)
             if resb['rejected'] or any(a[0] in ('exception', 'hint_rejected')
